@@ -466,8 +466,12 @@ func c25Gen(r *rand.Rand, n int, tier string, emit func(...string)) {
 						id = ids[r.Intn(len(ids)-1)]
 					}
 				}
-				if len(ids) > 0 && ids[len(ids)-1] == id {
-					id = id + "00"
+				if len(ids) > 0 && ids[len(ids)-1] == id && !(mode == "flag" && r.Intn(3) == 0) {
+					id = id + "00" // consecutive equal IDs only in flag mode, rarely (weaker guarantee there)
+				}
+				if mode == "flag" && len(ids) > 0 && r.Intn(15) == 0 {
+					id = ids[len(ids)-1]
+					vu.Stat("flag_same_consecutive_id")
 				}
 				if id == "-00" {
 					id = "00"
